@@ -266,6 +266,40 @@ def part_drain(only):
     return run
 
 
+ERRFLOW_CALLERS = {
+    "C05": {"gridDisk", "gridDiskDistances", "gridDiskDistancesSafe", "gridDiskDistancesUnsafe", "gridDiskUnsafe", "gridDisksUnsafe", "gridRingUnsafe",
+            "_gridDiskDistancesInternal", "areNeighborCells", "h3NeighborRotations"},
+    "C09": {"gridDistance", "cellToLocalIj", "localIjToCell", "cellToLocalIjk", "localIjkToCell"},
+    "C10": {"cellsToDirectedEdge", "getDirectedEdgeDestination", "directedEdgeToCells", "originToDirectedEdges", "directedEdgeToBoundary", "edgeLengthRads",
+            "edgeLengthKm", "edgeLengthM", "directionForNeighbor"},
+    "C11": {"cellToVertex", "cellToVertexes", "vertexToLatLng", "vertexRotations", "directionForVertexNum"},
+    "C14": {"gridPathCells", "gridPathCellsSize", "localIjkToCell", "cellToLocalIjk", "gridDistance"},
+    "C04": {"cellToChildren", "cellToChildrenSize", "cellToCenterChild", "cellToParent"},
+    "C06": {"compactCells", "uncompactCells", "uncompactCellsSize"},
+    "C13": {"cellToChildPos", "childPosToCell", "validateChildPos"},
+    "C15": {"polygonToCellsExperimental", "maxPolygonToCellsSizeExperimental", "iterInitPolygonCompact", "iterStepPolygonCompact"},
+    "C19": {"getIcosahedronFaces", "maxFaceCount"},
+    "C08": {"cellAreaRads2", "cellAreaKm2", "cellAreaM2", "cellToBoundary"},
+    "C02": {"latLngToCell"}, "C03": {"cellToLatLng", "getPentagons", "getRes0Cells"},
+}
+
+
+def part_errflow(pid):
+    def run(ctx):
+        from . import rules_errflow, rules_ret
+        m = module("release", "ssa")
+        if not getattr(rules_ret.check, "last_sets", None) or getattr(rules_ret.check, "last_mod", None) is not m:
+            sub = core.Ctx(ctx.pid)
+            rules_ret.check(sub, m, "release", ir.exported_api())
+            rules_ret.check.last_mod = m
+        n = rules_errflow.check(ctx, m, "release", rules_ret.check.last_sets, None if pid == "C12" else ERRFLOW_CALLERS[pid])
+        ctx.explanation += ("R-ERRFLOW: for every used call of an H3Error-returning function and every non-zero code in the callee's value set, the caller explored "
+                            "from the call with that result cannot reach `return E_SUCCESS` on an exactly interpreted path (one frozen, justified exception). ")
+        if pid == "C12":
+            ctx.floor("R-ERRFLOW", "used H3Error call sites in H3Error-returning callers", n, 70)
+    return run
+
+
 def part_fmt(ctx):
     from . import rules_fmt
     n = rules_fmt.check(ctx, module("release", "ssa"), "release")
@@ -287,15 +321,15 @@ PARTS = {
     "C01": [part_guards("C01"), part_bitprov("validity"), part_bitprov("indexops", "C01"), part_tables(["T7"], {"T7": ["isBaseCellPentagonArr"]}), part_cform("C01"), part_wit("C01")],
     "C02": [part_guards("C02"), part_argmin, part_bitprov("indexops", "C02"), part_tables(["T6", "T16", "T19"]), part_wit("C02")],
     "C03": [part_guards("C03"), part_argmin, part_bitprov("validity"), part_bitprov("indexops", "C03"), part_tables(["T7", "T4", "T5", "T9", "T19"], {"T7": ["isBaseCellPentagonArr", "pentagonCount", "res0CellCount", "getRes0Cells", "getPentagons", "baseCellNeighbors:rows", "baseCellNeighbor60CCWRots:rows"]}), part_cform("C03"), part_wit("C03")],
-    "C04": [part_guards("C04"), part_bitprov("indexops", "C04"), part_drain(["cellToChildren"]), part_cform("C04"), part_tables(["T7"], {"T7": ["isBaseCellPentagonArr"]}), part_wit("C04")],
-    "C05": [part_guards("C05"), part_bitprov("indexops", "C05"), part_tables(["T1", "T2", "T3", "T10", "T11", "T7", "T19"], {"T7": ["baseCellNeighbors", "baseCellNeighbor60CCWRots"]}), part_cform("C05"), part_hashmod(["_gridDiskDistancesInternal"], 1), part_wit("C05")],
-    "C06": [part_guards("C06"), part_bitprov("indexops", "C06"), part_drain(["uncompactCells"]), part_bw("C06"), part_hashmod(["compactCells"], 2)],
+    "C04": [part_guards("C04"), part_errflow("C04"), part_bitprov("indexops", "C04"), part_drain(["cellToChildren"]), part_cform("C04"), part_tables(["T7"], {"T7": ["isBaseCellPentagonArr"]}), part_wit("C04")],
+    "C05": [part_guards("C05"), part_errflow("C05"), part_bitprov("indexops", "C05"), part_tables(["T1", "T2", "T3", "T10", "T11", "T7", "T19"], {"T7": ["baseCellNeighbors", "baseCellNeighbor60CCWRots"]}), part_cform("C05"), part_hashmod(["_gridDiskDistancesInternal"], 1), part_wit("C05")],
+    "C06": [part_guards("C06"), part_errflow("C06"), part_bitprov("indexops", "C06"), part_drain(["uncompactCells"]), part_bw("C06"), part_hashmod(["compactCells"], 2)],
     "C08": [part_tables(["T5", "T9", "T13"]), part_cform("C08"), part_wit("C08")],
-    "C09": [part_guards("C09"), part_bitprov("indexops", "C09"), part_tables(["T1", "T2", "T3", "T10", "T14"]), part_ovf, part_wit("C09")],
-    "C10": [part_guards("C10"), part_bitprov("indexops", "C10"), part_tables(["T8", "T12"]), part_cform("C10"), part_wit("C10")],
-    "C11": [part_guards("C11"), part_tables(["T8", "T12", "T7"], {"T7": ["pentagonDirectionFaces"]}), part_wit("C11")],
-    "C12": [part_guards("C12"), part_ret, part_errdisc, part_ovf, part_idx, part_bw(None), part_hashmod(None, 5), part_cform("C12"), part_wit("C12")],
-    "C13": [part_guards("C13"), part_bitprov("indexops", "C13"), part_cform("C13"), part_wit("C13")], "C14": [part_guards("C14"), part_bw("C14"), part_cform("C14")], "C15": [part_guards("C15"), part_bw("C15"), part_sib, part_tables(["T17", "T18"]), part_wit("C15")],
+    "C09": [part_guards("C09"), part_errflow("C09"), part_bitprov("indexops", "C09"), part_tables(["T1", "T2", "T3", "T10", "T14"]), part_ovf, part_wit("C09")],
+    "C10": [part_guards("C10"), part_errflow("C10"), part_bitprov("indexops", "C10"), part_tables(["T8", "T12"]), part_cform("C10"), part_wit("C10")],
+    "C11": [part_guards("C11"), part_errflow("C11"), part_tables(["T8", "T12", "T7"], {"T7": ["pentagonDirectionFaces"]}), part_wit("C11")],
+    "C12": [part_guards("C12"), part_ret, part_errdisc, part_errflow("C12"), part_ovf, part_idx, part_bw(None), part_hashmod(None, 5), part_cform("C12"), part_wit("C12")],
+    "C13": [part_guards("C13"), part_errflow("C13"), part_bitprov("indexops", "C13"), part_cform("C13"), part_wit("C13")], "C14": [part_guards("C14"), part_errflow("C14"), part_bw("C14"), part_cform("C14")], "C15": [part_guards("C15"), part_errflow("C15"), part_bw("C15"), part_sib, part_tables(["T17", "T18"]), part_wit("C15")],
     "C19": [part_tables(["T5", "T9"]), part_bw("C19"), part_cform("C19"), part_wit("C19")],
     "C20": [part_guards("C20"), part_fmt, part_wit("C20")],
 }
